@@ -23,6 +23,9 @@ def core_cfgs(tier, seed, want):
         add(n=2, m=2, s=1, p=1, w="none", eps="sym", useed=1, vseed=u)
         add(n=3, m=2, s=1, p=2, w="diag", eps="neg", useed=0, vseed=1)
         add(n=3, m=2, s=1, p=1, w="diag", eps="zero")
+        # wide data: more right-hand sides than observations (S > N), weighted and unweighted (round 8, C01-h)
+        add(n=2, m=2, s=3, p=1, w="diag", eps="sym", mrhs=1)
+        add(n=2, m=1, s=3, p=1, w="none", real_svd=1, mrhs=1, par=1)
     if "basic" in want:
         # rationally parametrised frames: ALL rotations U (Euler-Rodrigues) and V ((1-k^2, 2k)/(1+k^2)), symbolic parameters
         add(n=3, m=2, s=1, p=1, w="diag", eps="sym", useed=9999, vseed=10000)
@@ -118,6 +121,7 @@ def relw_cfgs(tier, seed):
          ("relw", dict(n=3, m=2, s=2, p=1, kind="unit", mrhs=1, par=1, useed=1, vseed=u)),
          ("relw", dict(n=3, s=1, p=1, w="diag", kind="zero", zero_w=1)),
          ("relw", dict(n=4, m=2, s=2, p=1, w="diag", kind="zero", zero_w=2, mrhs=1, useed=u, vseed=v)),
+         ("relw", dict(n=2, m=2, s=3, p=1, w="diag", kind="scale", mrhs=1, useed=u, vseed=v)),
          ("relw_stats", dict(n=4, m=2, p=1, w="diag")),
          ("relw_stats", dict(n=4, m=1, p=2, w="diag"))]
     if tier == "thorough":
@@ -136,7 +140,8 @@ def relmrhs_cfgs(tier, seed):
          ("relmrhs", dict(n=3, m=2, s=1, p=1, w="diag", kind="one", useed=u, vseed=v, eps="sym")),
          ("relmrhs", dict(n=3, m=2, s=3, p=1, w="diag", kind="perm", useed=u, vseed=v)),
          ("relmrhs", dict(n=3, m=2, s=2, p=1, w="diag", kind="dup", useed=u, vseed=v)),
-         ("relmrhs", dict(n=2, m=1, s=2, p=1, w="diag", kind="columns", real_svd=1))]
+         ("relmrhs", dict(n=2, m=1, s=2, p=1, w="diag", kind="columns", real_svd=1)),
+         ("relmrhs", dict(n=2, m=2, s=3, p=1, w="diag", kind="columns", useed=u, vseed=v))]
     if tier == "thorough":
         C += [("relmrhs", dict(n=4, m=2, s=3, p=2, w="diag", kind="columns", useed=v, vseed=u)),
               ("relmrhs", dict(n=4, m=3, s=2, p=1, w="diag", kind="perm", useed=u, vseed=v, par=1)),
